@@ -8,6 +8,7 @@ def joinHex (v : List Bytes) : String := if v.isEmpty then "-" else String.inter
 def parseOp (t : String) : Option Udp.AOp :=
   if t = "f" then some .fl
   else if t = "t" then some .idle
+  else if t.startsWith "x" then (t.drop 1).toString.toNat?.map .rx
   else if t.startsWith "w" then (parseHex (t.drop 1).toString).map .wr
   else t.toNat?.map .rd
 
